@@ -1,3 +1,67 @@
+(* C15  Training is equivariant, scoring invariant, under affine feature rescaling/shift. *)
 From Coq Require Import Reals List.
-Theorem placeholder : True. Proof. exact I. Qed.
-Print Assumptions placeholder.
+From BLE Require Import Num.InstR Model.GMM Model.KMeans Model.LinScore Proofs.RLemmas Proofs.GMMLik Proofs.GMMStats Proofs.KMeansR Proofs.LinScoreR Proofs.Affine.
+Import ListNotations.
+Open Scope R_scope.
+
+Theorem C15_log_likelihood_shifts_by_minus_sum_log_abs_scale (D : nat) (a b : list R) (m : MR.gmm) (x : list R) :
+  scale_ok D a b -> length x = D -> wf_gmm D m ->
+  length (MR.ws m) = length (MR.mus m) -> length (MR.ws m) = length (MR.vars m) ->
+  MR.ll (aff_gmm a b m) (aff a b x) = MR.ll m x - sumlnabs a.
+Proof. exact (ll_affine D a b m x). Qed.
+Print Assumptions C15_log_likelihood_shifts_by_minus_sum_log_abs_scale.
+
+Theorem C15_responsibilities_invariant (D : nat) (a b : list R) (m : MR.gmm) (x : list R) (c : MR.comp) :
+  scale_ok D a b -> length x = D -> wf_gmm D m -> wf_comp D c ->
+  length (MR.ws m) = length (MR.mus m) -> length (MR.ws m) = length (MR.vars m) ->
+  let '(w, mu, v) := c in
+  MR.resp (aff_gmm a b m) (aff a b x) (w, aff a b mu, aff_var a v) = MR.resp m x c.
+Proof. exact (resp_affine D a b m x c). Qed.
+Print Assumptions C15_responsibilities_invariant.
+
+Theorem C15_statistics_equivariant (D : nat) (a b : list R) (m : MR.gmm) (X : list (list R)) :
+  scale_ok D a b -> GMMStats.rows_ok D X -> wf_gmm D m ->
+  length (MR.ws m) = length (MR.mus m) -> length (MR.ws m) = length (MR.vars m) ->
+  let st := MR.e_step D m X in
+  let st' := MR.e_step D (aff_gmm a b m) (map (aff a b) X) in
+  MR.s_t st' = MR.s_t st /\ MR.s_n st' = MR.s_n st
+  /\ MR.s_px st' = MR.V.map2 (fun sx n => MR.V.map3 (fun ad bd s => ad * s + bd * n) a b sx) (MR.s_px st) (MR.s_n st)
+  /\ MR.s_pxx st' = MR.V.map3 (fun sxx sx n => MR.V.map3 (fun ab s2 s1 => fst ab * fst ab * s2 + 2 * fst ab * snd ab * s1 + snd ab * snd ab * n)
+                                                (combine a b) sxx sx) (MR.s_pxx st) (MR.s_px st) (MR.s_n st)
+  /\ MR.s_ll st' = MR.s_ll st - INR (length X) * sumlnabs a.
+Proof. exact (e_step_affine D a b m X). Qed.
+Print Assumptions C15_statistics_equivariant.
+
+(* one ML EM step on rescaled data from the rescaled model = the rescaled result: means a*mu+b, variances a^2 var, weights unchanged *)
+Theorem C15_ml_training_step_equivariant (D : nat) (a b : list R) (eps : R) (m : MR.gmm) (X : list (list R)) (th : list (list R)) (uw : bool) :
+  scale_ok D a b -> X <> [] -> GMMStats.rows_ok D X -> wf_gmm D m -> 0 < eps ->
+  length (MR.ws m) = length (MR.mus m) -> length (MR.ws m) = length (MR.vars m) ->
+  length th = length (MR.ws m) -> Forall (fun r => length r = D) th ->
+  let sw := {| MR.upd_means := true; MR.upd_vars := true; MR.upd_ws := uw |} in
+  let st := MR.e_step D m X in
+  let st' := MR.e_step D (aff_gmm a b m) (map (aff a b) X) in
+  let mc := {| MR.g := m; MR.thr := th |} in
+  let mc' := {| MR.g := aff_gmm a b m; MR.thr := map (aff_var a) th |} in
+  floors_inactive_plain eps st mc ->
+  MR.g (MR.ml_m_step sw eps st' mc') = aff_gmm a b (MR.g (MR.ml_m_step sw eps st mc)).
+Proof. exact (ml_m_step_affine D a b eps m X th uw). Qed.
+Print Assumptions C15_ml_training_step_equivariant.
+
+Theorem C15_linear_scores_invariant (eps : R) (norm : bool) (C D : nat) (a b : list R) (model umu uvar off : list (list R)) (s : LR.tstat) :
+  scale_ok D a b -> shape_ok C D model -> shape_ok C D umu -> shape_ok C D uvar -> shape_ok C D off -> tstat_ok C D s ->
+  LR.score1 eps norm (aff_m a b model) (aff_m a b umu) (map (aff_var a) uvar) (scale_m a off) (aff_tstat a b s)
+  = LR.score1 eps norm model umu uvar off s.
+Proof. exact (score_affine_invariant eps norm C D a b model umu uvar off s). Qed.
+Print Assumptions C15_linear_scores_invariant.
+
+(* k-means under translation and uniform scaling: distances scale by s^2, assignments are unchanged *)
+Theorem C15_kmeans_similarity (D : nat) (s : R) (t : list R) (cents : list (list R)) (c x : list R) :
+  s <> 0 -> length t = D -> length x = D -> length c = D -> KMeansR.rows_ok D cents ->
+  KR.sqdist (sim s t c) (sim s t x) = s * s * KR.sqdist c x
+  /\ KR.closest (map (sim s t) cents) (sim s t x) = KR.closest cents x.
+Proof.
+  intros Hs Ht Hx Hc Hr. split.
+  - apply (sqdist_similarity s t c x); congruence.
+  - exact (closest_similarity D s t cents x Hs Ht Hx Hr).
+Qed.
+Print Assumptions C15_kmeans_similarity.
